@@ -5,6 +5,7 @@ import (
 	"errors"
 	"fmt"
 	"math/big"
+	"sync"
 	"time"
 
 	"github.com/ethereum/go-ethereum/accounts/abi/bind"
@@ -77,7 +78,21 @@ type contractPayment struct {
 	backend      bind.ContractBackend
 	balanceCache balanceCache
 	transactOpts *bind.TransactOpts
+
+	// settling holds, per account, the settlement we submitted and whose
+	// Balance event we have not seen yet.
+	settlingMu sync.Mutex
+	settling   map[store.Account]pendingSettle
 }
+
+type pendingSettle struct {
+	tx common.Hash
+	at time.Time
+}
+
+// A settlement that has not shown up in an event after this long was dropped
+// or reverted; its mark must not hide the account's events for good.
+const pendingSettleExpire = 10 * time.Minute
 
 // GetNodeBalance proxies the normal store implementation
 // by adding the contract deposit to the resulting balance.
@@ -151,6 +166,10 @@ func (p *contractPayment) SubscribeBalance(ctx context.Context, handler func(acc
 			select {
 			case balanceEvent := <-sink:
 				account := store.Account(balanceEvent.Account.Hex())
+				if p.supersededBySettle(account, balanceEvent.Raw.TxHash) {
+					logger.Printf("SubscribeBalance: Skipping event for account %s from before its pending settlement", account)
+					continue
+				}
 				logger.Printf("SubscribeBalance: Processing event for account: %s", account)
 				// Events must be applied in the order they happened, the last
 				// one holds the current balance.
@@ -185,6 +204,24 @@ func (p *contractPayment) SubscribeBalance(ctx context.Context, handler func(acc
 	return nil
 }
 
+// supersededBySettle reports whether a Balance event of account is older than
+// a settlement we submitted for it: events arrive in chain order, so every
+// event before the settlement's own one describes a deposit that the
+// settlement has paid out since. Applying it would bring that deposit back.
+func (p *contractPayment) supersededBySettle(account store.Account, txHash common.Hash) bool {
+	p.settlingMu.Lock()
+	defer p.settlingMu.Unlock()
+	pending, ok := p.settling[account]
+	if !ok {
+		return false
+	}
+	if pending.tx != txHash && time.Since(pending.at) < pendingSettleExpire {
+		return true
+	}
+	delete(p.settling, account)
+	return false
+}
+
 // GetBalance returns the unlocked deposit balance for an account.
 func (p *contractPayment) GetBalance(account store.Account) (*big.Int, error) {
 	if account == store.Account("") {
@@ -212,10 +249,17 @@ func (p *contractPayment) OpSettle(account store.Account, paymentAmount *big.Int
 
 	// TODO: Check balance of transactor/operator before executing transactions.
 	// TODO: p.contract.OpWithdraw occasionally, especially if operator is running low on funds to cover fees.
+	// Events are held off while the settlement is submitted and noted down.
+	p.settlingMu.Lock()
+	defer p.settlingMu.Unlock()
 	txn, err := p.contract.OpSettle(p.transactOpts, addr, paymentAmount, newBalance)
 	if err != nil {
 		return "", err
 	}
+	if p.settling == nil {
+		p.settling = map[store.Account]pendingSettle{}
+	}
+	p.settling[depositKey(account)] = pendingSettle{tx: txn.Hash(), at: time.Now()}
 	// The deposit we have cached is what was just paid out. Don't wait for the
 	// Balance event of the mined transaction to forget it, or a second
 	// withdraw in the meantime would settle the same deposit again.
